@@ -241,6 +241,89 @@ func checkPrefixTables(r *Reporter, p *Prog, rule string) {
 		}
 		got := map[string]map[int]bool{}
 		var stray []string
+		// The dispatch may live in a size table: a helper of the package that maps the prefix type to
+		// its byte width (`return serializer.UInt16ByteSize` under `lenType == ...AsUint16`), whose
+		// result bounds the bytes that are read or written (`buf[:size(lenType)]` handed to a call).
+		// The widths are then the constants the helper returns under each case.
+		sizeTable := false
+		if len(caseEdges) == 0 {
+			inspectNoLit(f.Body, func(n ast.Node) bool {
+				sl, ok := n.(*ast.SliceExpr)
+				if !ok || sl.High == nil || sl.Low != nil {
+					return true
+				}
+				hc, ok := ast.Unparen(sl.High).(*ast.CallExpr)
+				if !ok || len(hc.Args) != 1 || !strings.HasSuffix(typeName(info.TypeOf(hc.Args[0])), "SeriLengthPrefixType") {
+					return true
+				}
+				fn := staticCallee(info, hc)
+				if fn == nil {
+					return true
+				}
+				hd := p.decls().byFunc[fn.Origin()]
+				if hd == nil || hd.Body == nil || hd.Name.IsExported() || p.decls().infoOf[hd] != info {
+					return true
+				}
+				hf := newFuncCFG(p, info, hd.Body, key+"$sizes")
+				hcase := map[string][]Edge{}
+				hf.forEachEdgeFact(func(e Edge, _ *cfg.Block, ft fact) {
+					rel, ok := relOf(ft.Atom)
+					if !ok {
+						return
+					}
+					if !ft.Pol {
+						rel = negRel(rel)
+					}
+					if rel.Op != "==" {
+						return
+					}
+					for c := range prefixConsts {
+						if strings.HasSuffix(rel.L, c) || strings.HasSuffix(rel.R, c) {
+							hcase[c] = append(hcase[c], e)
+						}
+					}
+				})
+				for _, rpt := range hf.FindOwn(func(m ast.Node) bool { _, isRet := m.(*ast.ReturnStmt); return isRet }) {
+					rs := hf.nodeAt(rpt).(*ast.ReturnStmt)
+					if len(rs.Results) != 1 {
+						continue
+					}
+					v, isConst := constInt(info, rs.Results[0])
+					if !isConst {
+						stray = append(stray, fmt.Sprintf("%s: the size table returns a non-constant width", hf.PosOf(rpt)))
+						continue
+					}
+					owner := ""
+					for c, edges := range hcase {
+						if _, only := hf.OnlyThroughEdges(rpt, edges); only {
+							owner = c
+						}
+					}
+					if owner == "" {
+						stray = append(stray, fmt.Sprintf("%s: the size table returns %d outside any `lenType == constant` case", hf.PosOf(rpt), v))
+						continue
+					}
+					if got[owner] == nil {
+						got[owner] = map[int]bool{}
+					}
+					got[owner][int(v)] = true
+				}
+				sizeTable = true
+				return true
+			})
+		}
+		isLocalArray := func(e ast.Expr) bool {
+			// a fixed-size scratch buffer of the function itself (not the input)
+			if sl, ok := ast.Unparen(e).(*ast.SliceExpr); ok {
+				e = sl.X
+			}
+			o, _ := objOfIdent(info, e).(*types.Var)
+			if o == nil || o.IsField() {
+				return false
+			}
+			_, isArr := o.Type().Underlying().(*types.Array)
+			return isArr
+		}
 		for _, b := range f.G.Blocks {
 			if !b.Live {
 				continue
@@ -251,6 +334,9 @@ func checkPrefixTables(r *Reporter, p *Prog, rule string) {
 					wd := widthOf(n)
 					if wd == 0 {
 						return true
+					}
+					if cl, isCall := n.(*ast.CallExpr); isCall && sizeTable && len(cl.Args) == 1 && isLocalArray(cl.Args[0]) {
+						return true // decoding the zero-padded scratch buffer: the width read from the input is the table's
 					}
 					owner := ""
 					for c, edges := range caseEdges {
@@ -748,42 +834,241 @@ func checkNoBareRead(r *Reporter, p *Prog) {
 	}
 }
 
-func checkMapDeterminism(r *Reporter, p *Prog) {
+// Lexical ordering of map entries. A function *forces ordering* if, on every path to an exit that
+// is not a failure return of its own, it (a) sets serializer.ArrayValidationModeLexicalOrdering on a
+// PRIVATE copy of the array rules (a struct-valued local, or a local pointer obtained from new/&T{}
+// - never through the pointer the type settings hold, which every other user of those rules shares)
+// and (b) turns the lexical-ordering mode on (WithLexicalOrdering(true) or
+// DeSeriModePerformLexicalOrdering or-ed into the mode), or (c) calls a function of the package that
+// forces ordering - unconditionally, or under a boolean parameter for which it passes `true` (or
+// its own such parameter). encodeMap and decodeMap must force ordering; how many helpers the
+// settings travel through on the way does not matter.
+type lexSetter struct {
+	uncond  bool
+	byParam int // index of the boolean parameter that switches it on, -1 if none
+	why     string
+}
+
+var lexSetterMemo = map[*ast.FuncDecl]*lexSetter{}
+
+func lexSetterOf(p *Prog, fd *ast.FuncDecl, depth int) *lexSetter {
+	if ls, ok := lexSetterMemo[fd]; ok {
+		return ls
+	}
+	res := &lexSetter{byParam: -1, why: "no statement forces the ordering bits"}
+	lexSetterMemo[fd] = res // recursion guard
+	if depth <= 0 || fd.Body == nil {
+		return res
+	}
 	info := p.Pkg(pkgSerix).TypesInfo
-	if f := p.CFGOf(pkgSerix, "API", "encodeMap"); f == nil {
-		r.Unresolved("determinism/map-ordering", pkgSerix+".API.encodeMap", "function not found")
-	} else {
-		writes := f.Find(func(n ast.Node) bool {
-			cl, ok := n.(*ast.CallExpr)
-			return ok && exprKey(cl.Fun) == "encodeSliceOfBytes"
-		})
-		isEnsure := func(n ast.Node) bool {
-			as, ok := n.(*ast.AssignStmt)
-			return ok && len(as.Lhs) == 1 && exprKey(as.Lhs[0]) == "ts" && exprKey(as.Rhs[0]) == "ts.ensureOrdering()"
+	f := newFuncCFGPlain(p, info, fd.Body, funcKey(pkgSerix, fd))
+	params := paramObjs(info, fd)
+	freshTarget := func(e ast.Expr) bool {
+		// X.ValidationMode with X a private copy
+		se, ok := ast.Unparen(e).(*ast.SelectorExpr)
+		if !ok {
+			return false
 		}
-		okArg := false
-		for _, w := range writes {
-			ast.Inspect(f.nodeAt(w), func(n ast.Node) bool {
-				if cl, ok := n.(*ast.CallExpr); ok && exprKey(cl.Fun) == "encodeSliceOfBytes" && len(cl.Args) == 4 && exprKey(cl.Args[2]) == "ts" {
-					okArg = true
+		o, _ := objOfIdent(info, se.X).(*types.Var)
+		if o == nil || o.IsField() {
+			return false
+		}
+		for _, po := range params {
+			if po == o {
+				if _, isPtr := o.Type().Underlying().(*types.Pointer); isPtr {
+					return false // the caller's object
+				}
+			}
+		}
+		if _, isPtr := o.Type().Underlying().(*types.Pointer); !isPtr {
+			return true // a struct value: a copy by construction
+		}
+		fresh := true
+		n := 0
+		ast.Inspect(fd.Body, func(m ast.Node) bool {
+			as, ok := m.(*ast.AssignStmt)
+			if !ok || len(as.Lhs) != len(as.Rhs) {
+				return true
+			}
+			for i, l := range as.Lhs {
+				if objOfIdent(info, l) != o {
+					continue
+				}
+				n++
+				switch r := ast.Unparen(as.Rhs[i]).(type) {
+				case *ast.CallExpr:
+					if rawKey(r.Fun) != "new" {
+						fresh = false
+					}
+				case *ast.UnaryExpr:
+					if _, isLit := ast.Unparen(r.X).(*ast.CompositeLit); !(r.Op == token.AND && isLit) {
+						if lo, _ := objOfIdent(info, r.X).(*types.Var); !(r.Op == token.AND && lo != nil && !lo.IsField()) {
+							fresh = false
+						}
+					}
+				default:
+					fresh = false
+				}
+			}
+			return true
+		})
+		return fresh && n > 0
+	}
+	mentions := func(e ast.Expr, name string) bool {
+		hit := false
+		ast.Inspect(e, func(m ast.Node) bool {
+			if id, ok := m.(*ast.Ident); ok && id.Name == name {
+				hit = true
+			}
+			return !hit
+		})
+		return hit
+	}
+	// the two bits, as predicates over block nodes; a call of another setter provides both
+	type cond struct {
+		pt    Point
+		param int // -2: unconditional at this node; >=0: call passes own bool parameter
+	}
+	var rule, mode, both []cond
+	badShared := ""
+	for _, b := range f.G.Blocks {
+		if !b.Live {
+			continue
+		}
+		for i, nd := range b.Nodes {
+			pt := Point{b, i}
+			inspectNoLit(nd, func(m ast.Node) bool {
+				switch x := m.(type) {
+				case *ast.AssignStmt:
+					for li, l := range x.Lhs {
+						if li >= len(x.Rhs) {
+							continue
+						}
+						if mentions(x.Rhs[li], "ArrayValidationModeLexicalOrdering") && (x.Tok == token.OR_ASSIGN || x.Tok == token.ASSIGN) {
+							if freshTarget(l) {
+								rule = append(rule, cond{pt, -2})
+							} else {
+								badShared = f.P.posStr(x.Pos()) + ": the ordering bit is set through rules that are shared with other users of the type settings"
+							}
+						}
+						if mentions(x.Rhs[li], "DeSeriModePerformLexicalOrdering") && (x.Tok == token.OR_ASSIGN || x.Tok == token.ASSIGN) {
+							mode = append(mode, cond{pt, -2})
+						}
+					}
+				case *ast.CallExpr:
+					if se, ok := ast.Unparen(x.Fun).(*ast.SelectorExpr); ok && se.Sel.Name == "WithLexicalOrdering" && len(x.Args) == 1 && rawKey(x.Args[0]) == "true" {
+						mode = append(mode, cond{pt, -2})
+					}
+					fn := staticCallee(info, x)
+					if fn == nil {
+						return true
+					}
+					hd := p.decls().byFunc[fn.Origin()]
+					if hd == nil || hd == fd || p.decls().infoOf[hd] != info {
+						return true
+					}
+					hs := lexSetterOf(p, hd, depth-1)
+					switch {
+					case hs.uncond:
+						both = append(both, cond{pt, -2})
+					case hs.byParam >= 0 && hs.byParam < len(x.Args):
+						a := x.Args[hs.byParam]
+						if rawKey(a) == "true" {
+							both = append(both, cond{pt, -2})
+						} else if ao := objOfIdent(info, a); ao != nil {
+							for pi, po := range params {
+								if po == ao {
+									both = append(both, cond{pt, pi})
+								}
+							}
+						}
+					}
 				}
 				return true
 			})
 		}
-		if len(writes) != 1 {
-			r.Fail("determinism/map-ordering", pkgSerix+".API.encodeMap", f.P.posStr(f.Body.Pos()), "expected one encodeSliceOfBytes call")
-		} else if _, found := f.PathFromEntryAvoiding(writes[0], isEnsure, nil); found || !okArg {
-			r.Fail("determinism/map-ordering", pkgSerix+".API.encodeMap", f.PosOf(writes[0]), "map entries collected from MapRange reach the serializer without ts = ts.ensureOrdering(): the output depends on Go's map iteration order")
-		} else {
-			r.Pass("determinism/map-ordering", pkgSerix+".API.encodeMap", f.PosOf(writes[0]), "ensureOrdering is applied to the settings handed to the serializer")
+	}
+	if badShared != "" {
+		res.why = badShared
+		return res
+	}
+	// under which condition are the bits set on every non-failing path?
+	try := func(param int) bool {
+		// edges on which the parameter is true (param >= 0), else no restriction
+		var on []Edge
+		if param >= 0 {
+			on, _ = f.VarEdges(params[param]) // none: the parameter is only handed on
+		}
+		covered := func(set []cond) func(ast.Node) bool {
+			pts := map[ast.Node]bool{}
+			for _, c := range set {
+				if c.param == -2 || c.param == param {
+					pts[f.nodeAt(c.pt)] = true
+				}
+			}
+			return func(n ast.Node) bool { return pts[n] }
+		}
+		okBit := func(set []cond) bool {
+			pred := covered(append(append([]cond{}, set...), both...))
+			starts := []Point{f.entry()}
+			if param >= 0 && len(on) > 0 {
+				starts = nil
+				for _, e := range on {
+					starts = append(starts, Point{e.From.Succs[e.Succ], 0})
+				}
+			}
+			for _, st := range starts {
+				blockNode := func(n ast.Node) bool {
+					// the avoid predicate sees sub-nodes; match the statement that holds a setting point
+					return pred(n)
+				}
+				if _, found := f.reach(st, &searchOpts{AvoidNode: blockNode, AvoidRet: func(rs *ast.ReturnStmt, val func(ast.Expr) int8) bool {
+					return len(rs.Results) > 0 && val(rs.Results[len(rs.Results)-1]) > 0
+				}}, func(pt Point, atExit bool) bool { return atExit }); found {
+					return false
+				}
+			}
+			return true
+		}
+		return okBit(rule) && okBit(mode)
+	}
+	if try(-1) {
+		res.uncond, res.why = true, ""
+		return res
+	}
+	for pi, po := range params {
+		if po == nil {
+			continue
+		}
+		if bt, ok := po.Type().Underlying().(*types.Basic); ok && bt.Info()&types.IsBoolean != 0 && try(pi) {
+			res.byParam, res.why = pi, ""
+			return res
 		}
 	}
-	if s, fd := srcOf(p, pkgSerix, "TypeSettings", "ensureOrdering"); fd == nil {
-		r.Unresolved("determinism/map-ordering", pkgSerix+".TypeSettings.ensureOrdering", "function not found")
-	} else if hasAll(s, ".WithLexicalOrdering(true)", ".ValidationMode|=serializer.ArrayValidationModeLexicalOrdering", ".WithArrayRules(") {
-		r.Pass("determinism/map-ordering", pkgSerix+".TypeSettings.ensureOrdering", p.posStr(fd.Pos()), "sets the lexical-ordering mode bit and the array-rule bit")
+	res.why = "a successful path does not set both ordering bits"
+	return res
+}
+
+// forcesLexicalOrdering returns "" if fd forces lexical ordering unconditionally, else why not.
+func forcesLexicalOrdering(p *Prog, fd *ast.FuncDecl) string {
+	ls := lexSetterOf(p, fd, 4)
+	if ls.uncond {
+		return ""
+	}
+	if ls.byParam >= 0 {
+		return "only under one of its own boolean parameters"
+	}
+	return ls.why
+}
+
+func checkMapDeterminism(r *Reporter, p *Prog) {
+	info := p.Pkg(pkgSerix).TypesInfo
+	if fd := p.FuncDecl(pkgSerix, "API", "encodeMap"); fd == nil {
+		r.Unresolved("determinism/map-ordering", pkgSerix+".API.encodeMap", "function not found")
+	} else if why := forcesLexicalOrdering(p, fd); why != "" {
+		r.Fail("determinism/map-ordering", pkgSerix+".API.encodeMap", p.posStr(fd.Pos()), "map entries collected from MapRange reach the serializer without lexical ordering being forced on a private copy of the rules ("+why+"): the output depends on Go's map iteration order")
 	} else {
-		r.Fail("determinism/map-ordering", pkgSerix+".TypeSettings.ensureOrdering", p.posStr(fd.Pos()), "ensureOrdering must enable lexical ordering in the settings and in the array rules: "+s)
+		r.Pass("determinism/map-ordering", pkgSerix+".API.encodeMap", p.posStr(fd.Pos()), "every successful path forces the lexical-ordering mode and rule bit on a private copy of the settings")
 	}
 	// toMode maps lexical ordering to the serializer mode bit
 	if s, fd := srcOf(p, pkgSerix, "TypeSettings", "toMode"); fd != nil {
@@ -1050,15 +1335,86 @@ func remainingLenGuards(f *FuncCFG) []lenGuard {
 	isRemLen := func(s string) bool {
 		return strings.HasPrefix(s, "len(") && strings.Contains(s, ".src[") && strings.HasSuffix(s, ".offset:])")
 	}
-	// variables holding the remaining length
-	lenVars := map[string]bool{}
-	inspectNoLit(f.Body, func(n ast.Node) bool {
-		if as, ok := n.(*ast.AssignStmt); ok && len(as.Lhs) == 1 && len(as.Rhs) == 1 && isRemLen(exprKey(as.Rhs[0])) {
-			lenVars[exprKey(as.Lhs[0])] = true
+	// variables holding the remaining length: a local whose only definition reaching the test is
+	// `v := len(d.src[d.offset:])` - in the function or in a helper spliced into it - and between that
+	// definition and the test nothing can have moved the offset (no store into .offset, no call of a
+	// method of the deserializer that was not spliced in): a snapshot taken before the prefix is
+	// consumed still counts the prefix bytes
+	movesOffset := func(n ast.Node) bool {
+		hit := false
+		inspectNoLit(n, func(m ast.Node) bool {
+			switch x := m.(type) {
+			case *ast.AssignStmt:
+				for _, l := range x.Lhs {
+					if strings.HasSuffix(rawKey(l), ".offset") {
+						hit = true
+					}
+				}
+			case *ast.IncDecStmt:
+				if strings.HasSuffix(rawKey(x.X), ".offset") {
+					hit = true
+				}
+			case *ast.CallExpr:
+				if se, ok := ast.Unparen(x.Fun).(*ast.SelectorExpr); ok && f.regionByCall(x) == nil {
+					if sel := info.Selections[se]; sel != nil && sel.Kind() == types.MethodVal && strings.HasSuffix(strings.TrimPrefix(typeName(info.TypeOf(se.X)), "*"), "serializer.Deserializer") {
+						hit = true
+					}
+				}
+			}
+			return !hit
+		})
+		return hit
+	}
+	lenVarAt := map[string]bool{} // "name@block-pointer" -> the identifier holds the remaining length at that branch
+	isLenVar := func(e ast.Expr, b *cfg.Block) bool {
+		id, ok := ast.Unparen(e).(*ast.Ident)
+		if !ok {
+			return false
 		}
-		return true
-	})
-	isLen := func(s string) bool { return isRemLen(s) || lenVars[s] }
+		k := fmt.Sprintf("%s@%p", id.Name, b)
+		if v, has := lenVarAt[k]; has {
+			return v
+		}
+		res := false
+		if obj, isVar := objOfIdentRaw(info, id).(*types.Var); isVar {
+			pt := Point{b, len(b.Nodes) - 1}
+			defs, fromEntry := f.ReachingDefs(pt, obj)
+			if len(defs) == 1 && !fromEntry && defs[0].Rhs != nil && isRemLen(exprKey(defs[0].Rhs)) {
+				res = true
+				// no offset change between the snapshot and the test
+				if _, dirty := f.reach(Point{defs[0].At.B, defs[0].At.I + 1}, nil, func(q Point, atExit bool) bool {
+					if atExit || f.At(q, pt) {
+						return false
+					}
+					if n := f.nodeAt(q); n != nil && movesOffset(n) {
+						_, reaches := f.reach(Point{q.B, q.I + 1}, nil, func(q2 Point, atExit2 bool) bool { return !atExit2 && f.At(q2, pt) })
+						return reaches
+					}
+					return false
+				}); dirty {
+					res = false
+				}
+			}
+		}
+		lenVarAt[k] = res
+		return res
+	}
+	var curBlock *cfg.Block
+	var curX, curY ast.Expr
+	isLen := func(s string) bool {
+		if isRemLen(s) {
+			return true
+		}
+		if curBlock == nil {
+			return false
+		}
+		for _, e := range []ast.Expr{curX, curY} {
+			if e != nil && exprKey(e) == s && isLenVar(e, curBlock) {
+				return true
+			}
+		}
+		return false
+	}
 	var out []lenGuard
 	add := func(e Edge, other ast.Expr, otherKey string) {
 		g := lenGuard{e: e, other: otherKey}
@@ -1082,6 +1438,7 @@ func remainingLenGuards(f *FuncCFG) []lenGuard {
 			rel = negRel(rel)
 		}
 		l, rr := rel.L, rel.R
+		curBlock, curX, curY = b, be.X, be.Y
 		// want: other <= len   (i.e. rel is `other <= len`), or `len != 0` / `0 < len`  => one byte available
 		switch {
 		case rel.Op == "<=" && isLen(rr):
@@ -1261,6 +1618,25 @@ func checkNoSizeDrivenAlloc(r *Reporter, p *Prog) {
 			n++
 			sz := exprKey(mk.Args[1])
 			key := fmt.Sprintf("make(%s, %s) in %s", exprKey(mk.Args[0]), sz, fkey)
+			// the length of a piece of the source itself (every value the operand can stand for is nil
+			// or a slice of d.src): it cannot exceed what the input holds
+			if lc, isCall := ast.Unparen(mk.Args[1]).(*ast.CallExpr); isCall && rawKey(lc.Fun) == "len" && len(lc.Args) == 1 {
+				os := f.Origins(lc.Args[0], pt)
+				allSrc := len(os) > 0
+				for _, o := range os {
+					if isNil(info, o.E) {
+						continue
+					}
+					sl, isSlice := ast.Unparen(o.E).(*ast.SliceExpr)
+					if !isSlice || !strings.HasSuffix(rawKey(sl.X), ".src") {
+						allSrc = false
+					}
+				}
+				if allSrc {
+					r.Pass("alloc/bounded-by-input", key, p.posStr(mk.Pos()), "the size is the length of a slice of the source (the slicing itself is bounds-checked by deser/bounds-guarded)")
+					continue
+				}
+			}
 			var edges []Edge
 			for _, g := range guards {
 				if g.other == sz {
@@ -1341,8 +1717,33 @@ func checkNoSizeDrivenAlloc(r *Reporter, p *Prog) {
 			convArg = cl.Args[0]
 			return true
 		}
-		okGuard := len(assign) >= 4 && len(f.Find(isConv)) > 0
-		if okGuard {
+		okGuard := len(f.Find(isConv)) > 0
+		unguarded := func(assign map[string]bool) bool {
+			argKey := rawKey(convArg)
+			_, found := f.PathUnder(assign, nil, isConv, func(facts []fact, pt Point) bool {
+				for _, ft := range facts {
+					rel, ok := relOfWith(ft.Atom, func(x ast.Expr) string { return f.KeyAt(x, pt) })
+					if !ok {
+						continue
+					}
+					if !ft.Pol {
+						rel = negRel(rel)
+					}
+					if rel.Op == "<=" && strings.HasSuffix(rel.R, "math.MaxInt") && (rel.L == argKey || rel.L == f.KeyAt(convArg, pt)) {
+						return true
+					}
+				}
+				return false
+			})
+			return found
+		}
+		// a check that covers every prefix type needs no case split at all
+		if okGuard && !unguarded(map[string]bool{}) {
+			assign = nil
+		} else if okGuard {
+			okGuard = len(assign) >= 4
+		}
+		if okGuard && assign != nil {
 			argKey := rawKey(convArg)
 			if _, found := f.PathUnder(assign, nil, isConv, func(facts []fact, pt Point) bool {
 				for _, ft := range facts {
@@ -1992,24 +2393,8 @@ func runC03(c *Ctx) {
 	} else {
 		s, _ := srcOf(p, pkgSerix, "API", "decodeMap")
 		_ = s
-		// the settings handed to the sequence decoder are the result of ensureOrdering()
-		okOrder := false
-		{
-			df := newFuncCFG(p, infoX, fd.Body, "decodeMap")
-			for _, cl := range df.Calls(func(cl *ast.CallExpr) bool { return strings.HasSuffix(exprKey(cl.Fun), ".decodeSequence") }) {
-				cpt, okp := df.PointOf(cl)
-				if !okp {
-					continue
-				}
-				for _, a := range cl.Args {
-					if re, _ := df.ResolveToCall(a, cpt); re != nil {
-						if rc, isCall := ast.Unparen(re).(*ast.CallExpr); isCall && strings.HasSuffix(rawKey(rc.Fun), ".ensureOrdering") {
-							okOrder = true
-						}
-					}
-				}
-			}
-		}
+		// lexical ordering is forced (on a private copy of the rules) on every successful path
+		okOrder := forcesLexicalOrdering(p, fd) == ""
 		// every insert into a decoded map (binary decoder: decode.go, whichever function or literal
 		// holds it) is reachable only through the edge on which the key is known to be absent
 		okDup, nSets := true, 0
